@@ -25,7 +25,7 @@ theorem selfDone_ne_tstore (k : AKind) : selfDone k ≠ .tstore := by cases k <;
 theorem subNext_ne_tstore (k : AKind) : subNext k ≠ .tstore := by cases k <;> simp [subNext]
 
 macro "invD_auto" : tactic =>
-  `(tactic| (constructor <;> (try simp only [doSubmit, doDrop, doLdtor, doRet, doPublish, doFdtor, doReady, doMReady, doMsub, doMsuspend,
+  `(tactic| (constructor <;> (try simp only [doSubmit, doDrop, doLdtor, doRet, doPublish, doFdtor, doTdtor, doReady, doMReady, doMsub, doMsuspend,
       doTstore, doFire, doRegLoad, doCasOk, regFail, regFrom, afterReg, State.setWord]) <;>
       grind [inOp, outcome, finalRes, selfDone, subNext, cbDone, inOp_selfDone, inOp_subNext, inOp_cbDone]))
 
@@ -33,7 +33,7 @@ set_option maxHeartbeats 16000000 in
 theorem invD_step_1 {w s l s'} (ha : InvA w s) (hd : InvD w s) (hs : Step s l s')
     (hfire : ∀ j p, p ∈ (s.word j).cbs → inOp s.pc = true)
     (hl : match l with | .pXchg _ | .envPush _ | .envSwap _ _ | .exCall | .ldtor | .ret | .publish _ | .fdtor
-                       | .rdLoad _ | .mload _ | .ready _ | .msub | .msuspend | .regLoad _ _ | .cas _ _ | .fire _ _ => True
+                       | .rdLoad _ | .mload _ | .ready _ | .msub | .msuspend | .regLoad _ _ | .cas _ _ | .fire _ _ | .tdtor _ => True
                        | _ => False) : InvD w s' := by
   cases hd
   cases hs with
@@ -47,6 +47,7 @@ theorem invD_step_1 {w s l s'} (ha : InvA w s) (hd : InvD w s) (hs : Step s l s'
   | fdtor h hl => invD_auto
   | rdLoad op rest j x h ht hj hx => invD_auto
   | mload v h hv => invD_auto
+  | tdtor j h hl hr => invD_auto
   | ready x h => cases hb : awaitReady x <;> invD_auto
   | mready v h => cases hb : decide (v = 1) <;> invD_auto
   | msub op rest h ht => invD_auto
